@@ -869,7 +869,10 @@ impl Gen
     fn knobs(&mut self) -> Knobs
     {
         // with long files, byte-sized chunks would only burn scheduler steps
-        let read_chunk = if self.big_files { *self.rng.pick(&[0usize, 0, 255, 256, 257, 4096, 65536]) } else { *self.rng.pick(&[0usize, 0, 1, 7, 255, 256, 257]) };
+        // (long names make long contents too: every content carries its path)
+        let read_chunk = if self.big_files { *self.rng.pick(&[0usize, 0, 255, 256, 257, 4096, 65536]) }
+            else if self.long_names { *self.rng.pick(&[0usize, 0, 64, 255, 256, 257, 255]) }
+            else { *self.rng.pick(&[0usize, 0, 1, 7, 255, 256, 257]) };
         let write_chunk = if self.big_files { *self.rng.pick(&[0usize, 0, 0, 4096]) } else { *self.rng.pick(&[0usize, 0, 0, 0, 7, 16, 64]) };
         let clock = match self.cfg.clock
         {
@@ -912,7 +915,11 @@ impl Gen
         }
         let mut dirs = vec![];
         if self.with_dir { dirs = vec!["out".to_string(), "out/deep".to_string(), "out/deep/er".to_string()]; }
-        Case{ rules : rules, files : files, dirs : dirs, rule_files : 1, ops : ops, knobs : self.knobs() }
+        let mut knobs = self.knobs();
+        // (a history file of a thousand states, read byte by byte with a scheduling point at every
+        //  read, would run into the step bound: the build would abort and nothing would be checked)
+        if k > 200 { knobs.yield_on_read = false; }
+        Case{ rules : rules, files : files, dirs : dirs, rule_files : 1, ops : ops, knobs : knobs }
     }
 
     pub fn case(&mut self) -> Case
